@@ -188,10 +188,30 @@ def install():
     md = sys.modules["Geometry3D.calc.distance"]
 
     orig_inter = mi.intersection
+    first = {"h": None}
+
+    def wrap_handler(name, fn):
+        @functools.wraps(fn)
+        def handler(*args):
+            if _depth == 1 and first["h"] is None:
+                first["h"] = name.lower()
+            return fn(*args)
+        return handler
+
+    for name in [n for n in dir(mi) if n.startswith("inter_") and callable(getattr(mi, n))]:
+        setattr(mi, name, wrap_handler(name, getattr(mi, name)))
 
     @functools.wraps(orig_inter)
     def intersection(a, b):
-        return record("intersection", (a, b), lambda: orig_inter(a, b))
+        if _depth == 0:
+            first["h"] = None
+
+        def post(r):
+            d = {"res": abstract(r, False)}
+            if first["h"] is not None:
+                d["h"] = first["h"]
+            return d
+        return record("intersection", (a, b), lambda: orig_inter(a, b), post=post)
 
     orig_dist = md.distance
 
